@@ -8,7 +8,23 @@ import os
 import sys
 import traceback
 
-from .report import AnalysisError, Ctx
+from .report import AnalysisError, Ctx, Where
+
+
+# exceptions whose occurrence on a folded path does not depend on how complete a rule's scenario is (unlike KeyError /
+# AttributeError / ValueError, which a scenario that lacks an entry could cause): reported as violations, not analysis errors
+CERTAIN_RAISES = {"IndexError", "UnboundLocalError", "NameError", "ZeroDivisionError", "StopIteration", "RecursionError"}
+
+
+def function_at(model, file, line):
+    for mod in model.mods.values():
+        if mod.rel == file:
+            best = ""
+            for q, f in mod.funcs.items():
+                if f.lineno <= line <= getattr(f, "end_lineno", f.lineno) and len(q) >= len(best):
+                    best = q
+            return best
+    return ""
 
 
 def run_property(prop: str, tier: str, seed: int, only_rule: str | None = None) -> int:
@@ -36,7 +52,18 @@ def run_property(prop: str, tier: str, seed: int, only_rule: str | None = None) 
         try:
             fn(ctx, model)
         except AnalysisError as e:
-            ctx.error(e.reason, e.where)
+            exc = getattr(e, "exc_name", None)
+            if exc in CERTAIN_RAISES:
+                # the code path this rule folds raises, under Python's own semantics and whatever the input values are
+                file, _, line = (e.where or "").partition(":")
+                line = int(line) if line.isdigit() else 0
+                qual = function_at(model, file, line)
+                ctx.violation(f"raises.{exc}", Where(file or "cij", qual, line), expected="the analysed path completes (or refuses with its documented error)",
+                              found=f"{exc} at {e.where}", explanation=f"{qual or file}: the path analysed by this rule raises {exc} for every input "
+                              f"(an index beyond the end of a sequence the code builds, a name or local that is never bound, a division by a constant zero, an "
+                              f"exhausted look-up): the calculation cannot complete", instance=f"{qual or file}: raises {exc}")
+            else:
+                ctx.error(e.reason, e.where)
         except RecursionError:
             ctx.error("recursion limit in analysis")
         except Exception as e:  # internal error is an analysis error, never a violation
